@@ -322,6 +322,20 @@ impl Family for NamesFamily {
         for (w, _, _) in witnesses() {
             v.push(json!({"kind": "witness", "name": w}));
         }
+        // items spelled like a temporary with any number a busy function reaches (one counter serves all
+        // prefixes), alone and next to an item whose trailing number is smaller but sorts after it as text
+        for prefix in ["x", "t", "mtmp", "ret", "cond", "env", "wild"] {
+            for n in 0..=80u64 {
+                for decoy in ["", "log2", "md9"] {
+                    for place in ["main", "lib"] {
+                        if _tier == Tier::Quick && place == "lib" && decoy == "md9" {
+                            continue;
+                        }
+                        v.push(json!({"kind": "temp-number", "prefix": prefix, "n": n, "decoy": decoy, "place": place}));
+                    }
+                }
+            }
+        }
         for (d, _) in duplicates() {
             v.push(json!({"kind": "duplicate", "name": d}));
         }
@@ -411,6 +425,24 @@ impl Family for NamesFamily {
             let (w, c) = (case["name"].as_str().unwrap(), case["closure"].as_bool().unwrap_or(false));
             let (t, e) = rebinding_program(w, c);
             (t, e, format!("rebinding={}{}", w, if c { ";innermost-in-closure" } else { "" }))
+        } else if case["kind"] == "temp-number" {
+            let (prefix, n, decoy, place) = (case["prefix"].as_str().unwrap(), case["n"].as_u64().unwrap(), case["decoy"].as_str().unwrap(), case["place"].as_str().unwrap());
+            let item = format!("{}{}", prefix, n);
+            let mut body = String::new();
+            for i in 0..6 {
+                body.push_str(&format!("    let k{i} = if g({i}) > 0 {{ h(g({i}) + 1) }} else {{ match g({i}) {{ 1 => 4, _ => 5 }} }};\n    let f{i} = |q: int32| q + k{i};\n    let p{i} = match (k{i}, f{i}(1)) {{ (1, b) => b, (a, _) => a }};\n", i = i));
+            }
+            let items = format!("fn {}() -> int32 {{ 7 }}\n{}", item, if decoy.is_empty() { String::new() } else { format!("fn {}() -> int32 {{ 1 }}\n", decoy) });
+            let q = if place == "lib" { "Lib::" } else { "" };
+            let sum = format!("p0 + p1 + p2 + p3 + p4 + p5 + {}{}(){}", q, item, if decoy.is_empty() { String::new() } else { format!(" + {}{}()", q, decoy) });
+            let text = format!(
+                "package Main\nimport Lib\n\nfn g(a: int32) -> int32 {{ a }}\nfn h(a: int32) -> int32 {{ a + Lib::one() }}\n{}fn main() {{\n{}    string_println(int32_to_string({}))\n}}\n//// FILE Lib/lib.gom\npackage Lib\n\nfn one() -> int32 {{ 1 }}\n{}",
+                if place == "main" { items.as_str() } else { "" },
+                body,
+                sum,
+                if place == "lib" { items.as_str() } else { "" }
+            );
+            (text, format!("{}\n", 37 + if decoy.is_empty() { 0 } else { 1 }), format!("temp-number;prefix={};n={};decoy={};place={}", prefix, n, if decoy.is_empty() { "none" } else { decoy }, place))
         } else if case["kind"] == "witness" {
             let name = case["name"].as_str().unwrap();
             let (_, t, e) = witnesses().into_iter().find(|(n, _, _)| *n == name).unwrap();
